@@ -399,7 +399,7 @@ func (r *Run) verifyTop() {
 			// one obligation per return site, in that site's own state (no merge): for heavy clauses of functions with
 			// many exits
 			for k, rp := range fr.rets {
-				senv := &Env{r: r, vars: map[string]Val{}, oldVars: penv.vars, st: rp.st, old: fr.entry, pkg: penv.pkg, specPkg: penv.specPkg}
+				senv := &Env{r: r, vars: map[string]Val{}, oldVars: penv.vars, st: rp.st, old: fr.entry, pkg: penv.pkg, specPkg: penv.specPkg, fr: fr, pos: rp.pos}
 				for kk, v := range penv.vars {
 					senv.vars[kk] = v
 				}
